@@ -58,6 +58,11 @@ impl ValueChain {
     fn push_node(&self, mut new_node: Node) -> &Node {
         let mut cell = &self.root;
         loop {
+            #[cfg(unimock_verif)]
+            crate::verif::yield_point(
+                crate::verif::Op::CellInsert,
+                cell as *const OnceCell<Node> as usize,
+            );
             match cell.try_insert(new_node) {
                 Ok(new_node) => {
                     return new_node;
@@ -68,6 +73,20 @@ impl ValueChain {
                 }
             }
         }
+    }
+}
+
+#[cfg(unimock_verif)]
+impl ValueChain {
+    /// Number of values currently held.
+    pub fn verif_len(&self) -> usize {
+        let mut len = 0;
+        let mut cell = &self.root;
+        while let Some(node) = cell.get() {
+            len += 1;
+            cell = &node.next;
+        }
+        len
     }
 }
 
